@@ -104,3 +104,26 @@ def replay_orientation(r):
         if cost.shape != exp.shape or not np.allclose(cost, exp, rtol=1e-5, atol=1e-6):
             bad.append("cost %s instead of %s" % (cost.tolist(), exp.tolist()))
     return {"violation": bool(bad), "detail": "; ".join(bad)}
+
+
+def replay_arc_lemma(r):
+    """a problem of the size the solver returned (up to memory): the real transport_plan on a banded cost must keep its
+    marginals; an index that wraps around breaks them"""
+    inp = r["inputs"]
+    n, m = int(inp["n"]), int(inp["m"])
+    n, m = min(n, 4000), min(m, 4000)
+    while n * m > 4_000_000:
+        n, m = max(1, n // 2), max(1, m // 2)
+    if inp.get("declared_locals") and n * m <= 65536:
+        n, m = 300, 301            # a declared machine type is the point: go beyond 2^16 arcs (non-square on purpose)
+    rng = np.random.RandomState(0)
+    p = rng.random_sample(n) + 0.1; p /= p.sum()
+    q = rng.random_sample(m) + 0.1; q /= q.sum()
+    cost = np.abs(np.linspace(0, 1, n)[:, None] - np.linspace(0, 1, m)[None, :])
+    try:
+        P = transport_plan(p, q, cost)
+    except Exception as e:
+        return {"violation": True, "detail": "%s: %s" % (type(e).__name__, e)}
+    bad = not np.allclose(P.sum(axis=1), p, atol=1e-8) or not np.allclose(P.sum(axis=0), q, atol=1e-8) or bool(np.any(P < -1e-12))
+    return {"violation": bool(bad), "detail": "n=%d m=%d: max row-marginal error %g, max column-marginal error %g" % (
+        n, m, float(np.max(np.abs(P.sum(axis=1) - p))), float(np.max(np.abs(P.sum(axis=0) - q))))}
